@@ -131,7 +131,7 @@ pub fn matmul_configs(max_size: usize, leads: &[Vec<usize>], with_bias: bool) ->
 pub fn matmul_space(tier: Tier) -> Vec<MatCfg> {
     match tier {
         Tier::Quick => matmul_configs(3, &leading_patterns(), true),
-        Tier::Thorough => matmul_configs(4, &leading_patterns(), true),
+        Tier::Thorough => matmul_configs(5, &leading_patterns(), true),
     }
 }
 
@@ -195,6 +195,11 @@ pub fn conv_space(tier: Tier) -> Vec<ConvCfg> {
     let batches = vec![vec![], vec![1], vec![2], vec![3], vec![2, 2]];
     match tier {
         Tier::Quick => conv_configs(4, 3, 3, &[1, 2], &[1, 2], &batches),
-        Tier::Thorough => conv_configs(5, 3, 3, &[1, 2], &[1, 2, 3], &batches),
+        Tier::Thorough => {
+            let mut b = batches.clone();
+            b.push(vec![2, 3]);
+            b.push(vec![1, 2, 2]);
+            conv_configs(6, 3, 3, &[1, 2, 3], &[1, 2, 3], &b)
+        }
     }
 }
